@@ -557,6 +557,7 @@ class Analyzer:
             st.int[ref['d']] = iv
         if iv == (0, 0):
             self.zero_count(st, ref['d'])
+        self.const_count(st, ref['d'], iv)
         # a count of readable bytes replaced by something that is not larger is still a count of readable bytes
         # (if (limit > 63) { limit = 63; })
         if old_counts and iv[1] < POS and old_iv[0] > NEG and iv[1] <= old_iv[0] and iv[0] >= 0:
@@ -593,6 +594,15 @@ class Analyzer:
                             if rl[0] == '@cur:' + bo and rl[1] == rl[2] == 0 and pk in self.tracked_ptrs:
                                 st.acc = st.acc | {(('rge', pk, c), ref['d'])}
 
+    def const_count(self, st, did, iv):
+        """a counter set to a constant no larger than what is readable at a pointer (remaining = 4 with four bytes at digit): from here
+        on it runs in step with that pointer if both are stepped together"""
+        if iv[0] == iv[1] and 1 <= iv[0] < 4096:
+            for pk in list(self.tracked_ptrs):
+                av = st.ptr.get(pk)
+                if av is not None and av[0] >= iv[0]:
+                    st.acc = st.acc | {(('rge', pk, 0), did)}
+
     def zero_count(self, st, did):
         # zero bytes are readable at every cursor that is not behind its end
         for B, av in st.buf.items():
@@ -627,6 +637,7 @@ class Analyzer:
                         st.int[d['d']] = iv
                     if iv == (0, 0):
                         self.zero_count(st, d['d'])
+                    self.const_count(st, d['d'], iv)
                     if d['d'] in self.offset_copies:
                         b, n = self.offset_copies[d['d']]
                         view = '%s#%s' % (b, n)
